@@ -120,6 +120,11 @@ type replayFile struct {
 	Trace       []string          `json:"trace,omitempty"`
 	ProcessLvl  bool              `json:"process_level,omitempty"`
 	Proc        int               `json:"proc"`
+	// TimingDependent: the violation needed several replay attempts (the changed code races
+	// below the seams the scheduler controls, e.g. inside a library both requests call into);
+	// replaying retries up to ReplayAttempts times
+	TimingDependent bool `json:"timing_dependent,omitempty"`
+	ReplayAttempts  int  `json:"replay_attempts,omitempty"`
 }
 
 type knownFile struct {
@@ -747,7 +752,23 @@ func (c *ctx) confirm(r *runResult, processLevel bool) (string, error) {
 			writeJSON(tmp, rf)
 			rr, stderr, rerr = c.single("replay", tmp, nil)
 		}
-		sameInvariant := rr != nil && rr.Violation != nil && rr.Violation.Property == r.Violation.Property && rr.Violation.Invariant == r.Violation.Invariant
+		same := func(x *runResult) bool {
+			return x != nil && x.Violation != nil && x.Violation.Property == r.Violation.Property && x.Violation.Invariant == r.Violation.Invariant
+		}
+		if !same(rr) && processViolation(c.spec.ID, stderr, rerr) == nil {
+			// code that races below the seams (two simultaneously launched requests meeting
+			// inside a library, say) makes the outcome depend on real thread timing: try the
+			// recorded tape a few more times at different parallelism before giving up
+			procs := []string{"16", "4", "1", "8", "2"}
+			for attempt := 0; attempt < 15 && !same(rr); attempt++ {
+				rr, stderr, rerr = c.single("replay", tmp, map[string]string{"GOMAXPROCS": procs[attempt%len(procs)]})
+				if same(rr) {
+					rf.TimingDependent = true
+					rf.ReplayAttempts = 40
+				}
+			}
+		}
+		sameInvariant := same(rr)
 		if sameInvariant && rr.Violation.fingerprint() != fp {
 			// same invariant, different site label: the defect is schedule-dependent below the
 			// seams (e.g. which of two racing elements shows the wrong value); still a
@@ -1031,12 +1052,16 @@ func (c *ctx) mainFlow(replay string, keep bool) int {
 
 		known := loadKnown()
 		partUnknown := 0
+		var unconfirmed []string
 		for _, fp := range fpOrder {
 			r := byFP[fp]
 			path, err := c.confirm(r, r.Type == "dead")
 			if err != nil {
-				fmt.Fprintf(os.Stderr, "check: %v\n", err)
-				return 2
+				// observed during the search but not reproduced from its tape: never reported
+				// as a VIOLATION (there is no replay file to hand out); it makes the check
+				// exit 2 unless another violation of this run was confirmed
+				unconfirmed = append(unconfirmed, fmt.Sprintf("%v", err))
+				continue
 			}
 			isKnown := false
 			for _, k := range known.Findings {
@@ -1053,6 +1078,14 @@ func (c *ctx) mainFlow(replay string, keep bool) int {
 				lines = append(lines, fmt.Sprintf("VIOLATION property=%s replay=%s", c.spec.ID, path))
 				lines = append(lines, fmt.Sprintf("  fingerprint %s (%d runs); %s", fp, nviol[fp], firstLine(r.Violation.Detail)))
 			}
+		}
+
+		for _, u := range unconfirmed {
+			fmt.Fprintf(os.Stderr, "check: UNCONFIRMED %s\n", firstLine(u))
+		}
+		if len(unconfirmed) > 0 && partUnknown == 0 {
+			fmt.Fprintf(os.Stderr, "check: %s\n", unconfirmed[0])
+			return 2
 		}
 
 		// determinism smoke test: same seeds at two GOMAXPROCS values must give identical logs. It
@@ -1200,6 +1233,12 @@ func (c *ctx) replayFlow(path string) int {
 		c.use(rf.Scenario)
 	}
 	rr, stderr, err := c.single("replay", path, nil)
+	if rf.TimingDependent {
+		procs := []string{"16", "4", "1", "8", "2"}
+		for attempt := 0; attempt < rf.ReplayAttempts && (rr == nil || rr.Violation == nil) && err == nil; attempt++ {
+			rr, stderr, err = c.single("replay", path, map[string]string{"GOMAXPROCS": procs[attempt%len(procs)]})
+		}
+	}
 	var v *violation
 	if rr != nil {
 		v = rr.Violation
